@@ -26,6 +26,12 @@ val mul : nat -> nat -> nat
 
 val sub : nat -> nat -> nat
 
+val divmod : nat -> nat -> nat -> nat -> nat * nat
+
+val div : nat -> nat -> nat
+
+val modulo : nat -> nat -> nat
+
 val eqb : bool -> bool -> bool
 
 module Nat :
@@ -47,15 +53,27 @@ module Nat :
 
 val nth : nat -> 'a1 list -> 'a1 -> 'a1
 
+val nth_error : 'a1 list -> nat -> 'a1 option
+
 val rev : 'a1 list -> 'a1 list
+
+val concat : 'a1 list list -> 'a1 list
 
 val map : ('a1 -> 'a2) -> 'a1 list -> 'a2 list
 
+val flat_map : ('a1 -> 'a2 list) -> 'a1 list -> 'a2 list
+
 val fold_left : ('a1 -> 'a2 -> 'a1) -> 'a2 list -> 'a1 -> 'a1
+
+val forallb : ('a1 -> bool) -> 'a1 list -> bool
+
+val combine : 'a1 list -> 'a2 list -> ('a1 * 'a2) list
 
 val firstn : nat -> 'a1 list -> 'a1 list
 
 val skipn : nat -> 'a1 list -> 'a1 list
+
+val seq : nat -> nat -> nat list
 
 val repeat : 'a1 -> nat -> 'a1 list
 
@@ -91,6 +109,8 @@ module Coq_Pos :
 
   val pred_double : positive -> positive
 
+  val pred_N : positive -> n
+
   type mask = Pos.mask =
   | IsNul
   | IsPos of positive
@@ -124,7 +144,15 @@ module Coq_Pos :
 
   val coq_Ndouble : n -> n
 
+  val coq_lor : positive -> positive -> positive
+
   val coq_land : positive -> positive -> n
+
+  val coq_lxor : positive -> positive -> n
+
+  val shiftl : positive -> n -> positive
+
+  val testbit : positive -> n -> bool
 
   val iter_op : ('a1 -> 'a1 -> 'a1) -> positive -> 'a1 -> 'a1
 
@@ -139,6 +167,8 @@ module N :
 
   val double : n -> n
 
+  val succ : n -> n
+
   val add : n -> n -> n
 
   val sub : n -> n -> n
@@ -147,9 +177,13 @@ module N :
 
   val compare : n -> n -> comparison
 
+  val eqb : n -> n -> bool
+
   val leb : n -> n -> bool
 
   val ltb : n -> n -> bool
+
+  val max : n -> n -> n
 
   val div2 : n -> n
 
@@ -165,11 +199,21 @@ module N :
 
   val div_eucl : n -> n -> n * n
 
+  val div : n -> n -> n
+
   val modulo : n -> n -> n
+
+  val coq_lor : n -> n -> n
 
   val coq_land : n -> n -> n
 
+  val coq_lxor : n -> n -> n
+
+  val shiftl : n -> n -> n
+
   val shiftr : n -> n -> n
+
+  val testbit : n -> n -> bool
 
   val to_nat : n -> nat
 
@@ -268,6 +312,8 @@ type 'a res =
 | Err of n
 | Panic of n
 
+val bind : 'a1 res -> ('a1 -> 'a2 res) -> 'a2 res
+
 val eNotEnoughBits : n
 
 val eOverflow : n
@@ -283,6 +329,8 @@ val eFuel : n
 val pIndex : n
 
 val pSlice : n
+
+val pNil : n
 
 val pShift : n
 
@@ -401,5 +449,187 @@ val run_from_fift : sx -> sx
 val run_to_fift : sx -> sx
 
 val run_minbits : sx -> sx
+
+val m32 : n
+
+val add32 : n -> n -> n
+
+val rotr : n -> n -> n
+
+val not32 : n -> n
+
+val ch : n -> n -> n -> n
+
+val maj : n -> n -> n -> n
+
+val bsig0 : n -> n
+
+val bsig1 : n -> n
+
+val ssig0 : n -> n
+
+val ssig1 : n -> n
+
+val k : n list
+
+val h0 : n list
+
+val next_w : n list -> n
+
+val round : n list -> n -> n -> n list
+
+val rounds16 :
+  n list -> n list -> n list -> n list -> (n list * n list) * n list
+
+val rounds48 : n list -> n list -> n list -> n list
+
+val compress : n list -> n list -> n list
+
+val words_of_bytes : n list -> n list
+
+val blocks : nat -> n list -> n list -> n list
+
+val be_bytes : nat -> n -> n list
+
+val pad : nat -> n list
+
+val sha256 : n list -> n list
+
+val crc_poly : n
+
+val crc_bits : nat -> n -> n
+
+val crc_byte : n -> n -> n
+
+val crc32c : n list -> n
+
+type bytes = n list
+
+type node = { n_special : bool; n_type : n; n_mask : n; n_bits : bits;
+              n_refs : nat list }
+
+val take_drop : nat -> bytes -> (bytes * bytes) res
+
+val two0 : n
+
+val read_be : nat -> bytes -> n res
+
+val read_be_drop : nat -> bytes -> (n * bytes) res
+
+type header = { h_idx : bool; h_crc : bool; h_cache : bool; h_size : 
+                nat; h_cells : n; h_roots : n; h_absent : n; h_tot : 
+                n; h_rootlist : n list; h_index : n list; h_data : bytes;
+                h_alloc : n }
+
+val magic_reach : bytes
+
+val magic_lean : bytes
+
+val magic_lean_crc : bytes
+
+val bytes_eqb : bytes -> bytes -> bool
+
+val read_list : nat -> nat -> bool -> bytes -> n list -> (n list * bytes) res
+
+val le32 : bytes -> n
+
+val eParse : n
+
+val parse_header : bytes -> header res
+
+val popcount3 : n -> nat
+
+val strip_go : nat -> bits -> bits option
+
+val strip_completion : bits -> bits option
+
+val bytes_bits0 : bytes -> bits
+
+val top_upped_bits : bytes -> bool -> bits res
+
+type rnode = { rn_special : bool; rn_type : n; rn_mask : n; rn_bits : 
+               bits; rn_refs : n list }
+
+val read_refs : nat -> nat -> bytes -> n list -> (n list * bytes) res
+
+val parse_cell : bytes -> nat -> (rnode * bytes) res
+
+val parse_cells : nat -> nat -> bytes -> rnode list -> rnode list res
+
+val refs_ok : n -> n -> n list -> bool
+
+val check_refs : n -> n -> rnode list -> bool
+
+val node_of : rnode -> node
+
+type parsed = { p_cells : node list; p_roots : nat list; p_alloc : n }
+
+val cell_alloc : n
+
+val parse_boc : bytes -> parsed res
+
+val t_PRUNED : n
+
+val t_MPROOF : n
+
+val t_MUPDATE : n
+
+val eDepth : n
+
+val mask_level : n -> nat
+
+val mask_popcount : n -> nat
+
+val mask_apply : n -> nat -> n
+
+val mask_significant : n -> nat -> bool
+
+type imm = { im_special : bool; im_type : n; im_mask : n; im_bits : bits;
+             im_nrefs : nat; im_hashes : bytes list; im_depths : n list }
+
+val is_pruned : bool -> n -> bool
+
+val is_merkle : bool -> n -> bool
+
+val bits_bytes : nat -> bits -> bytes
+
+val buf_bytes : bits -> bytes
+
+val imm_hash : imm -> nat -> bytes res
+
+val imm_depth : imm -> nat -> n res
+
+val d1_byte : nat -> bool -> n -> n
+
+val d2_byte : nat -> n
+
+val data_with_tag : bits -> bytes
+
+val repr_no_refs : nat -> bool -> n -> bits -> bytes
+
+val be16 : n -> bytes
+
+val mapM : ('a1 -> 'a2 res) -> 'a1 list -> 'a2 list res
+
+val build_loop :
+  (bytes -> bytes) -> bool -> n -> n -> bits -> imm list -> nat list -> nat
+  -> bytes list -> n list -> (bytes list * n list) res
+
+val build_imm :
+  (bytes -> bytes) -> bool -> n -> n -> bits -> imm list -> imm res
+
+val lookup_refs : imm res list -> nat -> nat list -> imm list res
+
+val eval_dag : (bytes -> bytes) -> nat -> node list -> imm res list
+
+val cell_hash : imm -> bytes res
+
+val cell_depth : imm -> n res
+
+val sx_res : ('a1 -> sx) -> 'a1 res -> sx
+
+val root_info : node list -> imm res list -> nat -> sx
+
+val run_parse : sx -> sx
 
 val run : string -> sx -> sx
